@@ -565,6 +565,20 @@ pub fn run_tty(o: &Opts) {
             directed.push(Case { hist: vec!["echo @first".to_string(), h.to_string()], keys });
         }
     }
+    // history FILES of many lines (a new process reads them all back): recall the newest, an older
+    // one, run past the oldest, come back down
+    for (i, n) in [999usize, 1000, 1001, 1025, 4097, 70_000].into_iter().enumerate() {
+        if (i + 8) % o.nshards == o.shard {
+            let hist: Vec<String> = (0..n).map(|k| format!("echo @h{}", k)).collect();
+            let mut keys = vec![Key::Up, Key::Enter, Key::Up, Key::Up, Key::Up, Key::Enter];
+            keys.extend(std::iter::repeat(Key::Up).take(6));
+            keys.extend([Key::Down, Key::Down, Key::Enter]);
+            keys.extend(std::iter::repeat(Key::Down).take(12));
+            keys.extend(keys_of("exit"));
+            keys.push(Key::Enter);
+            directed.push(Case { hist, keys });
+        }
+    }
     for c in directed {
         *kinds.entry("long-line-session".into()).or_default() += 1;
         sink.put(&req(&c), &crate::tty::debug_session(&dir, &c.hist, &c.keys));
